@@ -48,8 +48,26 @@ claim("C14", "proof",
       "no-failing-input-found; defects are shown natively by findings/c14_*.cpp); enum-backed options, rCOptionCb, rParamsCb not covered.",
       "CBMC C++ front end on the real port-sugar.h macro bodies, loop-free full-domain symbolic execution against a clamp spec", "DESIGN.md section 6 / C14")
 
+claim("C06", "proof",
+      "What contracts can decide of a two-thread property: the SEQUENTIAL contract of every ring operation (ring_read_size, "
+      "ring_write_size, ring_read_vector, ring_write, ring_read) and of ThreadLink::hasNext/raw_write/writeArray/read on the text of "
+      "thread-link.cpp extracted mechanically on every run, for all ring sizes 2..2^30, all index values and all lengths: index "
+      "arithmetic, well-formedness preserved, frames (the writer assigns only `write` and buffer bytes, the reader only `read`/"
+      "`read_lookahead` and its destination), queued bytes undisturbed by a write (ghost position), a message that exceeds the free "
+      "space or MaxMsg is dropped whole, lookahead reads leave `read` alone and a normal read resynchronises the lookahead, hasNext "
+      "false iff the view is empty; the copy-before-publish / copy-before-release ORDER (memcpy wrapper asserting the index still has "
+      "its entry value); three stale-snapshot lemmas making each side's contract stable under the other side's actions. Content clauses "
+      "(view' = view||data, dst = view prefix) are bounded by ring size (64 quick / 1024 thorough). The composition to 'lossless FIFO "
+      "under every interleaving' is a PAPER STEP (single producer/consumer + seq_cst atomics), supported by a must-fire static fact "
+      "that the three indices are std::atomic with no weaker memory order named.",
+      "Interleavings are not enumerated and atomicity is dropped by the extraction (std::atomic<off_t> -> off_t): this is a proof of "
+      "the per-operation contracts and order obligations, not of linearizability. Codec callees enter through assumed contracts "
+      "(proved under C01/C02/C07); ThreadLink::read relies on 'queued messages <= MaxMsg', the guarantee proved for every writer operation.",
+      "CBMC function contracts (dfcc) on mechanically extracted ring/ThreadLink code; ghost-offset content clauses; order assertions; rely/guarantee on paper",
+      "DESIGN.md section 6 / C06")
+
 _later = "check not built yet in this revision (planned, see DESIGN.md section 6)"
-for k in ("C03", "C05", "C06", "C16", "C17", "C18", "C19"):
+for k in ("C03", "C05", "C16", "C17", "C18", "C19"):
     NA[k] = _later
 NA["C04"] = "Dispatch, the perfect-hash construction and the callbacks are C++ over std::vector<Port>, std::string, std::function with range-for/lambdas; CBMC's C++ front end rejects the TU and has no contract syntax in C++ mode; the only C ingredient, rtosc_match, is decided under C05."
 NA["C09"] = "walk_ports/walk_ports_recurse/bundle_foreach/port_is_enabled take Ports&, iterate std::vector, call std::function ports and snprintf into the shared buffer; no C-extractable core carries the statement."
